@@ -59,7 +59,7 @@ pub fn quirk_e(abs: bool, s: &[String]) -> Vec<String> {
 
 both_families! {
 	fn judge_copy(ctx: &str, text: &str, abs: bool, s: &[String], cx: &mut Ctx) -> Result<(), Failure> {
-		let p = Path::new(text).map_err(|_| Failure::new("harness", format!("generated path {:?} rejected", text)))?;
+		let p = match Path::new(text) { Ok(p) => p, Err(_) => return Ok(()) /* a path component that is not a valid Path is C02's subject */ };
 		let n = norm::n(abs, s);
 		let e = norm::e(abs, s);
 		// (1) normalized_segments
